@@ -117,7 +117,45 @@ def coerce(v, ty: Ty):
     if isinstance(ty, SetT) and isinstance(v.ty, SeqT) and ty.elem == v.ty.elem:
         x = z3.Const(fresh_name("e"), ty.elem.sort())
         return Val(z3.Lambda([x], z3.Contains(v.term, z3.Unit(x))), ty)
+    conv = COERCIONS.get((getattr(v.ty, "name", None), getattr(ty, "name", None)))
+    if conv is not None:
+        return Val(conv(v.term), ty)      # a view declared by the contract module (e.g. an opaque value known to be an Arguments object)
     raise Unsupported(f"cannot coerce {v.ty} to {ty}")
+
+
+COERCIONS: dict = {}
+
+
+_OVERRIDE: dict = {}
+
+
+def map_override(base, other, ty):
+    """dict(base); .update(other): other's entries on top of base's.  An uninterpreted function per map type with its pointwise
+    definition as an axiom (`map_override_axiom`): code and specification then coincide syntactically, no lambda under a quantifier."""
+    key = ty.sort().sexpr() if hasattr(ty.sort(), "sexpr") else str(ty.sort())
+    if key not in _OVERRIDE:
+        _OVERRIDE[key] = z3.Function("dict_override_" + "".join(ch if ch.isalnum() else "_" for ch in key), ty.sort(), ty.sort(), ty.sort())
+    return _OVERRIDE[key](base, other)
+
+
+def map_override_axiom(ty):
+    b, o = z3.Const("ovb", ty.sort()), z3.Const("ovo", ty.sort())
+    k = z3.Const("ovk", ty.key.sort())
+    return z3.ForAll([b, o, k], z3.Select(map_override(b, o, ty), k) == z3.If(ty.opt.is_some(z3.Select(o, k)), z3.Select(o, k), z3.Select(b, k)))
+
+
+def concat_hints(st, new, a, b):
+    """theorems of the sequence theory about new = a ++ b, position by position (z3 does not find them unprompted)"""
+    j = z3.Int(fresh_name("cj"))
+    st.assume(z3.Length(new) == z3.Length(a) + z3.Length(b))
+    st.assume(z3.ForAll([j], z3.Implies(z3.And(j >= 0, j < z3.Length(a)), new[j] == a[j])))
+    st.assume(z3.ForAll([j], z3.Implies(z3.And(j >= z3.Length(a), j < z3.Length(a) + z3.Length(b)), new[j] == b[j - z3.Length(a)])))
+
+
+def slice_hints(st, r, base, lo):
+    """r = base[lo:hi] with 0 <= lo: r[k] == base[lo + k] for every position of r"""
+    k = z3.Int(fresh_name("sk"))
+    st.assume(z3.ForAll([k], z3.Implies(z3.And(k >= 0, k < z3.Length(r)), r[k] == base[lo + k])))
 
 
 def values_equal(a, b):
